@@ -324,6 +324,91 @@ def rule_check_preprocessor(repo, rep):
                   'unrecognised return %s' % got)
 
 
+def rule_indexer_permissive(repo, rep):
+  from ..minterp import Interp, World, Undecided
+  from .c07b import S, tg
+  R = 'R-INTERP:array-indexer-conversion'
+  rep.rule(R, 'ArrayIndexer.__init__, interpreted, keeps in self.X the result '
+           'of one conversion of the given array that cannot reject it for '
+           'its content: accept_sparse=True, dtype=None, ensure_2d=False, '
+           'allow_nd=True, ensure_min_samples=0, ensure_min_features=0 and '
+           'finiteness not required (a table may hold NaN or text in rows no '
+           'indicator refers to; check_input validates what is actually '
+           'used)')
+  f = repo.get_func('_util.ArrayIndexer.__init__')
+  if f is None:
+    rep.unknown(R, '_util.ArrayIndexer.__init__', '', 'vanished')
+    return
+  rep.analysed(f)
+
+  class W(World):
+    def __init__(self):
+      self.calls, self.stored = [], {}
+
+    def name(self, it, ident):
+      if ident == '_ALL_FINITE':
+        return 'ensure_all_finite'
+      return NotImplemented
+
+    def setattr(self, it, obj, attr, value, node):
+      if obj == S('self'):
+        self.stored[attr] = value
+        return None
+      return NotImplemented
+
+    def call(self, it, d, recv, args, kwargs, node):
+      if d.rsplit('.', 1)[-1] == 'check_array' and 'sklearn' in d:
+        self.calls.append((args, dict(kwargs), node))
+        return S('converted', len(self.calls))
+      if d.startswith('numpy.') and d.rsplit('.', 1)[-1] in (
+              'asarray', 'array', 'asanyarray') and args:
+        self.calls.append((args, {'<numpy>': d}, node))
+        return S('converted', len(self.calls))
+      return NotImplemented
+  w = W()
+  ps = f.params()
+  key = '_util.ArrayIndexer.__init__'
+  try:
+    out = Interp(repo, f, w).run({ps[0]: S('self'), ps[1]: S('table')})
+  except Undecided as u:
+    rep.unknown(R, key, site(f), str(u))
+    return
+  if out[0] == 'raise':
+    rep.refuted(R, key, site(f), 'raises %s' % out[1][0])
+    return
+  x = w.stored.get('X')
+  if tg(x) != 'converted':
+    rep.refuted(R, key, site(f), 'self.X is %r, not the converted table'
+                % (x,))
+    return
+  args, kw, node = w.calls[x[1] - 1]
+  if not args or args[0] != S('table'):
+    rep.refuted(R, key, site(f, node), 'the conversion is applied to %r'
+                % (args[:1],))
+    return
+  if '<numpy>' in kw:
+    rep.derived(R, key, site(f, node))
+    return
+  want = dict(accept_sparse=True, dtype=None, ensure_2d=False, allow_nd=True,
+              ensure_min_samples=0, ensure_min_features=0,
+              ensure_all_finite=False)
+  strict_default = dict(accept_sparse=False, dtype='numeric', ensure_2d=True,
+                        allow_nd=False, ensure_min_samples=1,
+                        ensure_min_features=1, ensure_all_finite=True)
+  probs = []
+  for k, v in want.items():
+    got = kw.get(k, strict_default[k])
+    if got != v and not (v is False and got in (0, False)):
+      probs.append('%s=%r%s' % (k, got, '' if k in kw else ' (default)'))
+  if probs:
+    rep.refuted(R, key, site(f, node), 'the preprocessor table is converted '
+                'with %s: a table is rejected for content no indicator refers '
+                'to (the formed-data route accepts the same data)'
+                % ', '.join(probs))
+  else:
+    rep.derived(R, key, site(f, node))
+
+
 class _ForkTags(TagDomain):
   fork = True
   max_states = 64
@@ -634,4 +719,5 @@ def check(repo, rep, tier):
   rule_data_unchanged(repo, rep)
   rule_only_for_indicators(repo, rep)
   rule_slot_order(repo, rep)
+  rule_indexer_permissive(repo, rep)
   rule_wrapped(repo, rep)
